@@ -22,7 +22,11 @@ if rnd > 1:
         items.append('- ' + ' '.join(txt.split())[:420])
     known = ('\nChanges of this kind have ALREADY been produced by others - do not repeat them or close variants; pick other code sites, other '
              'clauses of the property, other mechanisms (state kept between calls, dtype/shape conventions, rarely taken branches, option '
-             'combinations, boundary values, error paths, interaction of two functions):\n' + '\n'.join(items) + '\n')
+             'combinations, boundary values, error paths, interaction of two functions' + (
+             '; in this round prefer: helper functions and other modules of the package that the anchored code calls, default argument '
+             'values and keyword/positional conventions, the type / dtype / shape of what is returned, exception types on refused input, '
+             'in-place modification of arguments, results that depend on an earlier call, behaviour for empty / length-1 / scalar inputs, '
+             'very large or very small magnitudes' if rnd >= 3 else '') + '):\n' + '\n'.join(items) + '\n')
 mech = '\n'.join('- %s (%s)' % (m['name'], m['where']) for m in p['anchors'].get('mechanism', []))
 task = f"""You are helping to evaluate a verification tool by writing realistic BUGS. You get one semantic property of the Python
 library weaverba137/pydl (Python ports of IDL astronomy routines) and a private git worktree of the library at {wt}
